@@ -5,10 +5,12 @@ import HclModel.Write.Nodes
 import HclModel.Write.StringLit
 import HclModel.Lex.Pos
 import HclModel.Lex.RangeScan
+import HclModel.Json.ScanPos
 import HclModel.Syntax.TypeExpr
 import Driver.OpDec
 import Driver.OpBuild
 import Driver.OpBody
+import Driver.OpMerged
 import Driver.OpParseB
 import Driver.OpExpand
 import Driver.OpJBody
@@ -68,10 +70,17 @@ def tokText : TypeExpr.Tok → String
   | .ident s => s | .lparen => "(" | .rparen => ")" | .lbrack => "[" | .rbrack => "]"
   | .lbrace => "{" | .rbrace => "}" | .comma => "," | .eq => "="
 
+/-- stable short names of the JSON scanner's token types (`JSONSCANP`) -/
+def ttName : Json.TT → String
+  | .braceO => "braceO" | .braceC => "braceC" | .brackO => "brackO" | .brackC => "brackC"
+  | .comma => "comma" | .colon => "colon" | .equals => "equals"
+  | .keyword => "keyword" | .string => "string" | .number => "number" | .eof => "eof" | .invalid => "invalid"
+
 def handle (st : St) (line : String) : St × String :=
   if line.startsWith "DEC " then (st, decLine (line.drop 4).toString)
   else if line.startsWith "BUILD " then (st, buildLine (line.drop 6).toString)
   else if line.startsWith "BODY " then (st, bodyLine (line.drop 5).toString)
+  else if line.startsWith "MERGE " then (st, mergedLine (line.drop 6).toString)
   else if line.startsWith "PARSEB " then (st, parsebLine (line.drop 7).toString)
   else if line.startsWith "EXPAND " then (st, expandLine (line.drop 7).toString)
   else if line.startsWith "JBODY " then (st, jbodyLine (line.drop 6).toString)
@@ -240,6 +249,18 @@ def handle (st : St) (line : String) : St × String :=
       let adv : List Nat → Nat := fun rest => arr.getD (n - rest.length) 1
       (st, " ".intercalate ((Json.scan adv bs).map fun t => s!"{repr t.ty}:{t.start}:{t.bytes.length}"))
     | _, _ => (st, "bad-op")
+  | ["JSONSCANP", startB, startL, startC, hex, advs] =>
+    -- JSONSCANP <byte> <line> <col> <hex bytes | -> <cluster advance per byte offset , | ->
+    --   →  <ty>:<sb>.<sl>.<sc>-<eb>.<el>.<ec> ...   (json/scanner.go with positions, HclModel/Json/ScanPos)
+    match startB.toNat?, startL.toNat?, startC.toNat?, Sexp.hexBytes hex,
+        (if advs == "-" then some [] else splitNats advs ',') with
+    | some sb, some sl, some sc, some bs, some tbl =>
+      let arr := tbl.toArray
+      let n := bs.length
+      let adv : List Nat → Nat := fun rest => arr.getD (n - rest.length) 1
+      (st, " ".intercalate ((Json.scanP adv bs ⟨sb, sl, sc⟩).map fun t =>
+        s!"{ttName t.ty}:{t.start.byte}.{t.start.line}.{t.start.col}-{t.stop.byte}.{t.stop.line}.{t.stop.col}"))
+    | _, _, _, _, _ => (st, "bad-op")
   | _ => (st, "bad-op")
 
 partial def loop (h : IO.FS.Stream) (out : IO.FS.Stream) (st : St) : IO Unit := do
